@@ -108,7 +108,8 @@ pub struct BuildCase {
     /// a character of the same class; 7 a build that panics half-way through encoding (a compact mode forced on content
     /// derived from the input with one character outside that mode - the crate documents this panic - caught with
     /// catch_unwind, as an application would); 8 a build that returns an error (the input forced into version 1, or more
-    /// than version 40 holds). Building is a pure function, so none of this may change the result.
+    /// than version 40 holds); 9 no build but the public `datamasking::mask` applied to a blank canvas (`QRCode::default`)
+    /// of the size the coming symbol will have. Building is a pure function, so none of this may change the result.
     pub pred: u8,
 }
 
@@ -137,7 +138,7 @@ impl BuildCase {
     /// The same case with a builder warm-up derived from `sel` (None for 3 values of `sel` out of 4). Only options
     /// that the final configuration also sets may be set during the warm-up (an option cannot be un-set again).
     pub fn with_warm_sel(mut self, sel: u16) -> Self {
-        self.pred = [0u8, 0, 0, 0, 0, 0, 0, 7, 1, 2, 3, 4, 5, 6, 8, 7][(sel >> 12) as usize & 15];
+        self.pred = [0u8, 0, 0, 0, 0, 0, 0, 7, 1, 2, 3, 4, 5, 6, 8, 9][(sel >> 12) as usize & 15];
         if sel % 4 != 0 {
             return self;
         }
@@ -246,6 +247,25 @@ impl BuildCase {
             return;
         }
         let mode_in_effect = self.effective_mode();
+        if self.pred == 9 {
+            // not a build at all: the public `datamasking::mask` applied, on this thread, to a matrix that is NOT a symbol
+            // (the blank canvas `QRCode::default(size)`, every module of type Data) of exactly the size the coming
+            // symbol will have - anything remembered per size from "the first matrix seen" is then wrong for the symbol
+            let v = self.opts.version.or_else(|| refmodel::tables::min_version(self.effective_level(), mode_in_effect, self.input.len()));
+            if let Some(v) = v.filter(|v| (1..=40).contains(v)) {
+                let n = 17 + 4 * v;
+                let h = crate::engine::hash_bytes(&self.input);
+                let _ = catch(move || {
+                    let mut q = Box::new(QRCode::default(n));
+                    fast_qr::datamasking::mask(&mut q, f_mask((h % 8) as u8));
+                    if h & 8 != 0 {
+                        fast_qr::datamasking::mask(&mut q, f_mask(((h >> 4) % 8) as u8));
+                    }
+                    q.size
+                });
+            }
+            return;
+        }
         let same_class = |b: u8| -> u8 {
             match mode_in_effect {
                 Mode::Numeric => b'0' + (b.wrapping_sub(b'0') % 10 + 7) % 10,
@@ -419,6 +439,39 @@ impl Built {
         }
         None
     }
+    /// A QR code is a public value: `data`, `qr[r][c]`, `Module::toggle` / `set` are all public, so what a renderer is
+    /// handed need not be what `build()` returned. For a third of the selector values, toggles 1..=5 modules in place
+    /// (value bit only, the module type stays): inside the three finder zones, on the timing row, anywhere. The
+    /// renderers must draw the value of every module, whatever its type says it "should" be. Returns what was edited.
+    pub fn edit_after_build(&mut self, sel: u64) -> Option<String> {
+        if sel % 3 != 0 {
+            return None;
+        }
+        let n = self.qr.size;
+        let mut x = sel / 3;
+        let mut next = || {
+            x = x.wrapping_mul(0x9E37_79B9_7F4A_7C15).wrapping_add(0x1234_5678_9ABC_DEF1);
+            (x >> 33) as usize
+        };
+        let k = 1 + next() % 5;
+        let mut what = Vec::new();
+        for _ in 0..k {
+            let (r, c, name) = match next() % 6 {
+                0 => (next() % 7, next() % 7, "finder_top_left"),
+                1 => (next() % 7, n - 1 - next() % 7, "finder_top_right"),
+                2 => (n - 1 - next() % 7, next() % 7, "finder_bottom_left"),
+                3 => (6, next() % n, "timing_row"),
+                _ => (next() % n, next() % n, "anywhere"),
+            };
+            self.qr[r][c].toggle();
+            if !what.contains(&name) {
+                what.push(name);
+            }
+        }
+        what.sort();
+        Some(what.join("+"))
+    }
+
     pub fn values(&self) -> Vec<bool> {
         let n = self.qr.size;
         self.qr.data[..(n * n).min(self.qr.data.len())].iter().map(|m| m.value()).collect()
